@@ -9,7 +9,7 @@
 From Coq Require Import List ZArith.
 Import ListNotations.
 From Model Require Import Key Sel GFI GFIEdit.
-From Proofs Require Import GFIBase GFIWf GFIEditProofs GFITags.
+From Proofs Require Import GFIBase GFIWf GFIEditProofs GFITags GFITagSound.
 
 Theorem C08_argument_tags_do_not_matter_partial : forall g k t r a tg tg',
   no_switch g -> plain r -> length tg = length tg' -> edit g k t r a tg = edit g k t r a tg'.
@@ -20,6 +20,34 @@ Theorem C08_site_nochange_means_unchanged_partial : forall d k t r a tg t' w b,
   wft (GDist d) t -> edit (GDist d) k t r a tg = Ok (t', w, b) -> site_retdiff_changed r = false -> t_retval t' = t_retval t.
 Proof. exact site_nochange_means_unchanged. Qed.
 Print Assumptions C08_site_nochange_means_unchanged_partial.
+
+(* First clause for the static language's expressions (argument and return expressions): the tag computed for an
+   expression from sound tags of its environment is sound — every part tagged NoChange has the value it had.
+   (`agree t v v'`: v and v' are equal wherever t says NoChange; tuples leaf by leaf.)  The model's edit does not
+   itself return a return-value diff: on every run the implementation's return diffs are checked leaf by leaf against
+   the previous return value (direct oracle), and the interpreter that computes them is C09's. *)
+Theorem C08_expression_tags_are_sound : forall e envt env env' v v',
+  env_agree envt env env' -> eval env e = Ok v -> eval env' e = Ok v' -> agree (tag_eval envt e) v v'.
+Proof. exact tag_eval_sound. Qed.
+Print Assumptions C08_expression_tags_are_sound.
+Theorem C08_expression_nochange_means_unchanged : forall e envt env env' v v',
+  env_agree envt env env' -> eval env e = Ok v -> eval env' e = Ok v' -> tg_any (tag_eval envt e) = false -> v = v'.
+Proof. exact nochange_means_unchanged. Qed.
+Print Assumptions C08_expression_nochange_means_unchanged.
+Example C08_expression_example :
+  let e := ETup [EAdd (EVar 0) (EConst 1); EMul (EVar 1) (EVar 0)] in
+  let envt := [TgLeaf false; TgLeaf true] in
+  env_agree envt [VZ 3; VZ 5] [VZ 3; VZ 7] /\
+  tag_eval envt e = TgNode [TgLeaf false; TgLeaf true] /\
+  eval [VZ 3; VZ 5] e = Ok (VT [VZ 4; VZ 15]) /\ eval [VZ 3; VZ 7] e = Ok (VT [VZ 4; VZ 21]).
+Proof.
+  cbv zeta. split; [split; [reflexivity|]|repeat split; reflexivity].
+  intros i v v' Hv Hv'. destruct i as [|[|i]]; simpl in Hv, Hv'.
+  - inversion Hv; inversion Hv'; subst. simpl. intros _. reflexivity.
+  - simpl. intros H. discriminate H.
+  - destruct i; discriminate Hv.
+Qed.
+Print Assumptions C08_expression_example.
 
 (* ---- non-vacuity: concrete non-trivial programs and traces meeting the hypotheses above (proofs/GFIWitness.v) ---- *)
 From Proofs Require Import GFIWitness.
